@@ -16,7 +16,7 @@ COMMON_MIR = [
 
 PROPS = {
     "C03": {
-        "mirsym": ["counter_verify", "fn_mocker_verify", "teardown", "teardown_wrappers", "assembler"],
+        "mirsym": ["counter_verify", "fn_mocker_verify", "teardown", "teardown_wrappers", "assembler", "builder_chains"],
         "bounds": {"quick": "CallCounter::verify: all 2^64 x 2^64 x 3 (minimum, actual, exactness); FnMocker::verify: 2 patterns, arbitrary counters; teardown: method table iteration unrolled to <=3"},
         "assumptions": COMMON_KANI + COMMON_MIR,
         "outside": ["rendered message text", "minimum+1 overflow for n_times(usize::MAX).then()"],
@@ -30,8 +30,9 @@ PROPS = {
         "outside": ["K > 4 patterns", "the matching! macro (C06)"],
     },
     "C02": {
+        "mirsym": ["builder_chains", "eval_dyn"],
         "bounds": {"quick": "segment lookup: S<=4 segments, repeat counts all values < 2^60 including 0, call index all 2^64; next_responder from an arbitrary counter value"},
-        "assumptions": COMMON_KANI,
+        "assumptions": COMMON_KANI + COMMON_MIR + ["builder chains: IntoReturn / IntoReturnOnce / IntoReturner conversions are environment calls that record which conversion ran (their behaviour is decided under C12/C17)"],
         "outside": ["sum of repeat counts >= 2^63", "more than 4 segments"],
     },
     "C04": {
@@ -76,5 +77,16 @@ PROPS = {
         "bounds": {"quick": "every sequence of <=3 pushes (thorough 4) over 2 (thorough 3) methods; adjacent-swap lemma at every position; Clone::clone data flow; eval_dyn table lookup with symbolic keys"},
         "assumptions": COMMON_MIR + ["BTreeMap modelled as a finite map; iteration order abstracted (no decision in the crate depends on it except the wording of an error message)"],
         "outside": ["generic instantiation distinctness is a property of TypeId (trusted)", "message text"],
+    },
+    "C12": {
+        "mirsym": ["builder_chains"],
+        "bounds": {"quick": "single-use value: all u8 payloads, 0..4 requests, then holder dropped (drop counter); repeatable value: 0..3 requests (clone + drop counters); composites (Option/Result/tuple/Vec/Poll over such leaves) in the external harness crate"},
+        "assumptions": COMMON_KANI + ["sequential requests only: the race between threads is reduced to the atomic take() under the lock (MutexIsh::locked is an atomic block, see C10/C11 units)"],
+        "outside": ["the builder refusing at compile time to quantify a non-Clone value (a fact about rustc's type checker)", "real threads racing for the value"],
+    },
+    "C13": {
+        "bounds": {"quick": "value chain: 2 shared pushes (type of the second symbolic), exclusive push after a shared one followed by a shared one, drop of chains of 0..2 values; thorough: 3 shared pushes"},
+        "assumptions": COMMON_KANI + ["once_cell::sync::OnceCell replaced (cfg(kani) only) by once_cell's own unsync cell behind the same API (Kani cannot compile the std implementation): single-threaded claim"],
+        "outside": ["thousands of values (bound: 3)", "concurrent pushes through a shared &Unimock (the cell library is trusted)", "recursive drop of very long chains in push_value_mut (observation in DESIGN section 6)"],
     },
 }
